@@ -69,6 +69,11 @@ func genParseCase(seed int64, label string, idx int, hostileShare int) parseCase
 	fam := obs.Fam(ver)
 	cor := gen.Corpus()
 	prog := func(rr *core.Rand) []byte {
+		if rr.Chance(1, 4) {
+			// a namespace program (G6): imports that are hit by the references
+			root, _ := gen.NSProgram(rr.Split("ns"), fam)
+			return gen.Render(root.Tokens(), []int{gen.LayCanon, gen.LayMinimal, gen.LayLF, gen.LayCRLF, gen.LayComments, gen.LayMixed}[rr.Intn(6)], rr.Split("lay"), nil)
+		}
 		if extraProgram != nil {
 			return extraProgram(rr, fam)
 		}
